@@ -6,12 +6,16 @@ SIM_STUBS = ['kernel eventfd (descriptor table in sim/sim.c)',
 ENGINES = {
     'estruct': {
         'src': ['harness/estruct.c'],
-        'sim_src': ['sim/upump_sim.c'],
-        'repo_src': ['lib/upipe/upump_common.c'],
+        'sim_src': ['sim/upump_sim.c', 'sim/alloc.c', 'sim/umem_sim.c'],
+        'repo_src': ['lib/upipe/upump_common.c', 'lib/upipe/ubuf_block_mem.c', 'lib/upipe/ubuf_mem_common.c',
+                     'lib/upipe/ubuf_pic_mem.c', 'lib/upipe/ubuf_pic_common.c', 'lib/upipe/ubuf_sound_mem.c',
+                     'lib/upipe/ubuf_sound_common.c', 'lib/upipe/ubuf_mem.c', 'lib/upipe/ubuf_pic.c',
+                     'lib/upipe/uref_pic_flow.c', 'lib/upipe/udict_inline.c'],
+        'track_alloc': True,
         'real': ['include/upipe/uatomic.h', 'include/upipe/uring.h', 'include/upipe/ufifo.h',
                  'include/upipe/ulifo.h', 'include/upipe/upool.h', 'include/upipe/uqueue.h',
                  'include/upipe/ueventfd.h', 'include/upipe/urefcount.h', 'include/upipe/udeal.h',
-                 'lib/upipe/upump_common.c'],
+                 'lib/upipe/upump_common.c', 'lib/upipe/ubuf_block_mem.c', 'include/upipe/ubuf_mem_common.h'],
         'stubs': SIM_STUBS + ['event loop (sim/upump_sim.c in place of libev, over the real upump_common.c)'],
     },
 }
@@ -65,7 +69,8 @@ PROPS = {
     },
     'C09': {
         'engine': 'estruct', 'quick_time': 20, 'thorough_time': 300,
-        'rule': ('one case = (2-3 holders with 1-2 initial references and 1-5 use/release operations each, schedule). '
+        'rule': ('one case = (2-3 holders with 1-2 initial references and 1-5 use/release operations each on one urefcount, or 1-2 buffers each and 1-4 '
+                 'ubuf_dup / ubuf_block_splice / ubuf_free operations on buffers sharing one memory area of the real ubuf_block_mem manager with pool depths 0/2/8; schedule). '
                  'Non-trivial = at least one preemption inside an operation; distinct = distinct (plan hash, decision-tape hash).'),
         'assumptions': [SC],
     },
